@@ -279,6 +279,17 @@ func c45Run(t *testing.T, ci any, trace bool) *verifsim.Result {
 		} else {
 			allowed[fallback.AutoConfVersion] = true
 		}
+		// complete configuration files as the finished update left them: during the
+		// first update the fallback is right only as long as none of them is in place
+		complete := map[string]bool{}
+		filepath.Walk(liveDir, func(p string, info os.FileInfo, err error) error {
+			if err == nil && !info.IsDir() && strings.HasPrefix(filepath.Base(p), "autoconf-") && strings.HasSuffix(p, ".json") {
+				if b, err := os.ReadFile(p); err == nil {
+					complete[string(b)] = true
+				}
+			}
+			return nil
+		})
 		var desc []string
 		for _, o := range log {
 			desc = append(desc, fmt.Sprintf("%s %s %s(%dB)", o.op, o.name, o.arg, len(o.data)))
@@ -295,7 +306,13 @@ func c45Run(t *testing.T, ci any, trace bool) *verifsim.Result {
 				return false
 			}
 			got := newClient(d, rt).GetCached()
-			if got == nil || !allowed[got.AutoConfVersion] {
+			haveComplete := false
+			for n, b := range fs.files {
+				if strings.HasPrefix(filepath.Base(n), "autoconf-") && strings.HasSuffix(n, ".json") && complete[string(b)] {
+					haveComplete = true
+				}
+			}
+			if got == nil || !allowed[got.AutoConfVersion] || (got.AutoConfVersion == fallback.AutoConfVersion && haveComplete) {
 				var names []string
 				for n, b := range fs.files {
 					names = append(names, fmt.Sprintf("%s(%dB)", n, len(b)))
